@@ -308,4 +308,23 @@ theorem run_dead (e : Handle) (ops : List TOp) (s : St) (si : SInv s) (hd : Dead
     (hr : InRange (runFrom s ops)) (hw : NoWrap (runFrom s ops)) : Dead e (runFrom s ops) :=
   (run_induct (Dead e) (micro_step (dead_micro e)) ops s si hd hwf hr hw).2
 
+theorem mem_issuedOf (evs : List Ev) (e : Handle) : e ∈ issuedOf evs ↔ Ev.issued e ∈ evs := by
+  simp only [issuedOf, List.mem_filterMap]
+  constructor
+  · rintro ⟨ev, hev, h⟩
+    cases ev <;> simp at h
+    subst h; exact hev
+  · intro h; exact ⟨_, h, rfl⟩
+
+/-- prefixes of a good history are good -/
+theorem prefix_good (wid : Nat) (ops ext : List TOp) (hwf : WF wid (ops ++ ext))
+    (hw : NoWrap (run wid (ops ++ ext))) (hr : InRange (run wid (ops ++ ext))) :
+    WF wid ops ∧ NoWrap (run wid ops) ∧ InRange (run wid ops) ∧
+    wfFrom (run wid ops) ext = true ∧ run wid (ops ++ ext) = runFrom (run wid ops) ext := by
+  unfold WF at hwf ⊢
+  rw [wfFrom_append, Bool.and_eq_true] at hwf
+  have e : run wid (ops ++ ext) = runFrom (run wid ops) ext := runFrom_append _ _ _
+  rw [e] at hw hr
+  exact ⟨hwf.1, hw.of_run, hr.of_run, hwf.2, e⟩
+
 end Mustache.Proofs.IdTable
